@@ -137,6 +137,11 @@ def run(c, prog, ctx):
     # what is stored as the PSET index in the first place: from_txin starts from Input::from_prevout, which must keep the
     # outpoint's index as it is (0xffffffff of the null outpoint included — the exemption tests compare with it); C08's instance
     if not ctx.get("no_deps"):
+        # the outpoint a TxIn carries after decoding is the plain index: the wire form folds the two flags into bits 30/31 and
+        # the reader removes exactly those (C01's TxIn flag rules; a reader that clears more bits changes the hashed outpoint)
+        from . import c01 as _c01
+        c.borrow(_c01, "C01", prog, ctx, lambda rule, k: rule in ("R2.txin-flag-extraction", "R2.txin-flags-cleared", "R3.txin-flag-folding", "R2.txin-coinbase-exemption"),
+                 "R3.wire-index", 3)
         from . import c08 as _c08
         c.borrow(_c08, "C08", prog, ctx, lambda rule, k: rule == "R5.pset-accessors" and "from_prevout" in k, "R3.stored-index", 1)
 
